@@ -951,6 +951,24 @@ class QuicConnection:
                     )
                 continue
 
+            # Discard duplicate packets, they must not be processed twice.
+            #
+            # https://datatracker.ietf.org/doc/html/rfc9000#section-12.3
+            if (
+                packet_number < space.ack_queue_floor
+                or packet_number in space.ack_queue
+            ):
+                if self._quic_logger is not None:
+                    self._quic_logger.log_event(
+                        category="transport",
+                        event="packet_dropped",
+                        data={
+                            "trigger": "duplicate",
+                            "raw": {"length": header.packet_length},
+                        },
+                    )
+                continue
+
             # check reserved bits
             if header.packet_type == QuicPacketType.ONE_RTT:
                 reserved_mask = 0x18
@@ -2368,6 +2386,10 @@ class QuicConnection:
         """
         if delivery == QuicDeliveryState.ACKED:
             space.ack_queue.subtract(0, highest_acked + 1)
+            if highest_acked + 1 > space.ack_queue_floor:
+                # Packets below this number are no longer tracked, any such
+                # packet is treated as a duplicate.
+                space.ack_queue_floor = highest_acked + 1
 
     def _on_connection_limit_delivery(
         self, delivery: QuicDeliveryState, limit: Limit
